@@ -4,7 +4,7 @@ CONSTANTS K = 2
           Ranges = {12}
           WithBatch = FALSE
           Mode = "replay"
-          Depth = 4
+          Depth = 3
 CONSTRAINT EmitTrace
 INVARIANT PropC11
 CHECK_DEADLOCK FALSE
